@@ -149,7 +149,27 @@ EXTRA = {
  "C19": "Test steps sent again after End; five respellings of the client's own id; duplicate-step race (one id, one step, six connections at once: exactly one success); near-miss values (float * (1+1e-10), integer - 1, letter case).",
  "C20": "Abstract names with slashes and dots; tcp addresses by host name; final replies that spell out continues:false; custom errors sharing a standard error's last name element.",
 }
+# parts added in round 6 of the seeded changes
+EXTRA6 = {
+ "C01": "A fifth request spelling carries an `upgrade: true` wish on methods that do not upgrade; long pipelines of 33..400 requests in one handle() call / one socket write; the alphabet has 19 kinds (a method without output parameters whose implementation replies).",
+ "C03": "For another case in five a call to one of the registered interfaces travels in front of the case in the same buffer.",
+ "C04": "The alphabet includes a method without output parameters whose implementation replies (an empty reply object).",
+ "C05": "The end of a client stream is also taken while another thread holds a read guard on the shared connection.",
+ "C07": "Part (d): read faults between a request and its reply; part (e): write / flush faults reported after the request bytes reached the peer - the peer's reply must reach no other call.",
+ "C08": "Every call is made a second time on the same connection and must be served like the first; methods whose snake_case form is a Rust keyword (Type, Self, Do) are part of every run.",
+ "C09": "Method names whose snake_case form is a Rust keyword are generated (former known class K4, repaired in /repo); members are documented with comment texts that mean something to Rust's lexer; the rejection half includes texts without any definition.",
+ "C10": "Comment blocks with blank-only and empty lines between their comment lines.",
+ "C13": "Peers gone mid-message, as many as the server has workers (1..3), then a newcomer; listen() must return after the stop flag once every client is gone (bounded wait, by repetition).",
+ "C14": "Open/close histories through listen() (fixed and proptest-generated, 3..27 steps, 7 configurations): after every step min(open, max) of the open connections are in service and never more than max.",
+ "C15": "A timeout error more than 30 ms after the stop flag was set (three runs in a row) is a violation; the flag raised inside the last poll interval before the idle deadline; a saturated pool whose queued connection then lives across idle deadlines with a late joiner.",
+ "C16": "tcp:localhost:port (client and server resolve a host name).",
+ "C18": "In the three copying modes the client closes while the service is busy for 4 s (the bridge stops, it does not wait for the service) and sessions end with a call after which the service closes right behind its reply (every reply still arrives, exit 0); two 401-call sessions in resolver mode under a 128-descriptor limit.",
+ "C19": "Start with a non-object JSON value in place of its parameters.",
+ "C20": "One reply script in three is written in about 37 pieces (boundaries inside multi-byte characters); large values made of three-byte characters.",
+}
 for _pid, _t in EXTRA.items():
+    CHECKS[_pid]["text"] += " " + _t
+for _pid, _t in EXTRA6.items():
     CHECKS[_pid]["text"] += " " + _t
 
 ALL = ["C%02d" % i for i in range(1, 21)]
